@@ -191,6 +191,9 @@ def _(ctx, env0, env, out):
     return same and items
 
 
+_.symbolic_only = True
+
+
 # ---------------------------------------------------------------------------------------
 c = contract('lentil.field.insert')
 
